@@ -1,6 +1,7 @@
 # -*- coding: utf-8 -*-
 """C02 - evaluation is a pure, repeatable function of formula and bindings.  Theorems: Properties/C02.v."""
 import copy
+import json
 import gc
 import io
 import os
@@ -48,7 +49,11 @@ class Boom(Exception):
 
 GOOD = ['1+2*3', 'SUM(1,2,3)', 'IF(1<2,"y","n")', '"a"&"b"', 'aa+bb', 'REC(aa,2)', 'A1+1', 'SUM(A1:B2)', '{1,2,3}', 'MAX(LL)', 'LARGE(LL,2)', 'INDEX(MM,2,1)', 'CONCATENATE("x",aa)',
         '-aa', '2^10', '50%', 'ROUND(2.567,1)', 'AND(TRUE,FALSE)', 'MEDIAN(LL)', 'SUMPRODUCT(LL,LL)', 'LEN("hello")', 'DATE(2020,1,31)', 'LL', 'MM', 'IFERROR(1/0,7)',
-        'MATCH(3,LL,0)', 'SMALL(LL,1)', 'RANK(3,LL)', 'MODE.SNGL(LL)', 'TRANSPOSE(MM)', 'COUNT(LL)', 'LL+1', 'LL*LL', 'MM&"x"', 'SUM(MM)', 'STDEV.S(LL)']
+        'MATCH(3,LL,0)', 'SMALL(LL,1)', 'RANK(3,LL)', 'MODE.SNGL(LL)', 'TRANSPOSE(MM)', 'COUNT(LL)', 'LL+1', 'LL*LL', 'MM&"x"', 'SUM(MM)', 'STDEV.S(LL)',
+        # equal values of different types through the same functions (a value-keyed memo would alias 1.0 / TRUE / 1, 0.0 / FALSE / -0.0)
+        'MEDIAN(1.0)', 'MEDIAN(TRUE)', 'MEDIAN(1)', 'MAXA(TRUE,FALSE)', 'MAXA(1.0,0.0)', 'MINA(FALSE,TRUE)', 'MINA(0.0,1.0)', 'AVERAGE(1.0,0.0)',
+        'AVERAGE(1,0)', 'LARGE({1.0,0.0},1)', 'LARGE({1,0},1)', 'SUM(1.0,0.0)', 'SUM(TRUE,FALSE)', 'MAX(0.0,-1)', 'MAX(0,-1)', 'MEDIAN(0.0)', 'MEDIAN(FALSE)',
+        'ABS(1.0)', 'ABS(TRUE)', 'ABS(1)', 'INT(1.0)', 'ROUND(TRUE,0)', 'MAXA(1.0,0.0)=TRUE', 'MEDIAN(1.0)&""', 'MEDIAN(TRUE)&""', 'MEDIAN(1)&""']
 BAD = ['1+', '(1', 'NOPE()', 'nope', '1/0', '#N/A', '#REF!+1', 'SUM(', '"abc', '1 2', u'\xe9', '@', 'IF(', '))', 'BOOM()', 'XL()', 'A1:', 'LISTEN', '1+BOOM()+2', 'SUM(1,XL())',
        'SQRT(-1)', 'VLOOKUP(1,2)', 'INDEX(LL,99)', 'MATCH(99,LL,0)', 'DATE("x",1,1)', '{1,2', 'F(', 'RAISECELL']
 
@@ -203,14 +208,77 @@ def check_reentrant(f):
     return out
 
 
-CHECKERS = {'reentrant': check_reentrant, 'history': check_history, 'mutation': check_mutation, 'retention': check_retention}
+_DRIVER = r"""
+import json, os, signal, sys
+sys.path[:0] = json.loads(os.environ['C02_PATH'])
+import C02
+import hotxlfp                      # imported, nothing evaluated: every child below starts from this state
+items = json.load(sys.stdin)
+out = []
+for hist, target, debug in items:
+    r, w = os.pipe()
+    pid = os.fork()
+    if pid == 0:
+        os.close(r)
+        try:
+            signal.alarm(30)
+            p, _ = C02.build(debug)
+            for f in hist:
+                C02.outcome(p, f)
+            res = repr(C02.outcome(p, target))
+        except BaseException as e:
+            res = 'CRASH %r' % (e,)
+        os.write(w, res.encode('utf-8'))
+        os._exit(0)
+    os.close(w)
+    buf = b''
+    while True:
+        chunk = os.read(r, 65536)
+        if not chunk:
+            break
+        buf += chunk
+    os.close(r)
+    os.waitpid(pid, 0)
+    out.append(buf.decode('utf-8') or 'NO-ANSWER')
+sys.stdout.write(json.dumps(out))
+"""
+
+
+def check_isolated(items):
+    """process-wide history: each (history, target) runs in a child forked from a process that has imported the package
+    and evaluated nothing, and is compared with the target evaluated alone in another such child (a memo table or any
+    other process-global state filled by the history cannot hide in the reference outcome)"""
+    import subprocess
+    items = [(list(h), t, bool(d)) for (h, t, d) in items]
+    alone = sorted(set(t for (_, t, _) in items))
+    jobs = [([], t, False) for t in alone] + items
+    env = dict(os.environ, C02_PATH=json.dumps([os.path.dirname(os.path.abspath(__file__))] + [x for x in sys.path if x]))
+    pr = subprocess.run([sys.executable, '-c', _DRIVER], input=json.dumps(jobs).encode('utf-8'), stdout=subprocess.PIPE, stderr=subprocess.PIPE, env=env)
+    if pr.returncode != 0:
+        return [('isolated-history driver', None, 'runs', pr.stderr.decode('utf-8', 'replace')[-400:])]
+    res = json.loads(pr.stdout.decode('utf-8'))
+    want = dict(zip(alone, res[:len(alone)]))
+    out = []
+    for (h, t, d), got in zip(items, res[len(alone):]):
+        if got != want[t]:
+            out.append((h, t, d, want[t], got))
+    return out
+
+
+def check_isolated_one(item):
+    h, t, d = item
+    return [('in a fresh process, after %r (debug=%s): %s' % (h, d, t), None, w, g) for (_, _, _, w, g) in check_isolated([(h, t, d)])]
+
+
+CHECKERS = {'reentrant': check_reentrant, 'history': check_history, 'mutation': check_mutation, 'retention': check_retention,
+            'isolated': check_isolated_one}
 
 
 def check_case(case):
     for k, fn in CHECKERS.items():
         if k in case:
             c = case[k]
-            if k == 'history':
+            if k in ('history', 'isolated'):
                 c = (list(c[0]), c[1], c[2])
             elif k == 'retention':
                 c = (list(c[0]), list(c[1]))
@@ -237,6 +305,41 @@ def all_functions_on_lists():
             fs.append('%s%s%s' % (a, op, b))
     fs += ['-LL', '{1,2}+LL', 'KEEP(LL)', 'REC(LL,MM)', 'KEEP(LL)+SORT(LL)', 'LARGE(KEEP(LL),1)+SMALL(KEEP(LL),1)', 'MEDIAN(KEEP(LL))', 'TRANSPOSE(KEEP(MM))']
     return fs
+
+
+ALIAS = GOOD[GOOD.index('MEDIAN(1.0)'):]
+
+
+def iso_items(rng, n, all_pairs):
+    items = []
+    pool = GOOD + BAD
+    for a in ALIAS:                 # all pairs inside the group of type-aliased values
+        for b in ALIAS:
+            if a != b:
+                items.append(([a], b, False))
+    if all_pairs:
+        for a in pool:
+            for b in pool:
+                items.append(([a], b, False))
+    for _ in range(n):
+        k = rng.choice([1, 1, 2, 3, 6, 15])
+        items.append(([rng.choice(pool) for _ in range(k)], rng.choice(pool), rng.random() < 0.2))
+    return items
+
+
+def run_isolated(R, items):
+    chunks = [items[i:i + 40] for i in range(0, len(items), 40)]
+    for ch, vs in zip(chunks, pmap(check_isolated, chunks, limit=600.0, confirm=False, serial_below=2)):
+        if vs == HANG:
+            R.violate({'isolated_chunk': len(ch)}, 'isolated-history chunk of %d items' % len(ch), None, 'returns', 'time limit')
+            continue
+        for v in vs:
+            if len(v) == 4:
+                R.violate({'isolated_chunk': len(ch)}, v[0], v[1], v[2], v[3])
+                continue
+            h, t, d, w, g = v
+            R.violate({'isolated': [list(h), t, d]}, 'in a fresh process, after %r (debug=%s): %s' % (h, d, t), None, w, g)
+    return len(items)
 
 
 def explore(ctx):
@@ -269,6 +372,10 @@ def explore(ctx):
         for (k_, c_, w, cls, e, g) in vs:
             R.violate({k: list(c) if isinstance(c, tuple) else c}, w, cls, e, g)
     R.evaluations += len(work)
+    # process-wide history (memo tables, class-level state): (history, target) in pristine processes
+    ni = run_isolated(R, iso_items(rng, 12000 if big else 1500, big))
+    R.evaluations += ni
+    R.extra['isolated_process_histories'] = ni
     # correspondence on histories: every evaluation of a history on a long-lived real parser vs the interpreter model on
     # a fresh host with the same bindings (= run_history vs fresh_outcomes)
     from common import compare
@@ -285,8 +392,10 @@ def explore(ctx):
               'target, debug on/off, vs a fresh parser; all (previous, target) pairs over %d formulas; %d formulas applying every '
               'registered function and operator to host lists (variables, cell / range values, custom-function arguments) with deep '
               'equality before/after; error-constant traceback chains and live traceback/frame/gc object counts after %r repetitions of 11 '
-              'failing workloads; %d histories on a long-lived parser vs the interpreter model on fresh hosts.'
-              % (nh, len(GOOD + BAD), len(muts), reps, len(hist_cases)))
+              'failing workloads; %d histories on a long-lived parser vs the interpreter model on fresh hosts; %d (history, target) '
+              'items each run in a child forked from a process that imported the package and evaluated nothing, vs the target '
+              'alone in another such child (process-wide state: memo tables, class-level containers).'
+              % (nh, len(GOOD + BAD), len(muts), reps, len(hist_cases), ni))
     return R
 
 
@@ -330,4 +439,5 @@ def search(ctx, proof, res):
         for (k_, c_, w, cls, e, g) in vs:
             R.violate({k: list(c) if isinstance(c, tuple) else c}, w, cls, e, g)
     R.evaluations = len(work)
+    R.evaluations += run_isolated(R, iso_items(rng, 4000, True))
     return R
